@@ -139,6 +139,19 @@ fn consistent_images() -> Vec<(String, Vec<u8>)> {
         s2.gap = 0;
         out.push((format!("built-holes-c{}-r{}", cb, order), spec::build_image(&s2).bytes));
     }
+    // short L1 tables (the header's l1_size covers less than the virtual size needs) with free
+    // clusters right behind the table
+    for (cb, order) in [(9u32, 6u32), (9, 4), (12, 4)] {
+        let l2e = 1usize << (cb - 3);
+        let mut s = ImageSpec::new(cb, order, (130 * l2e as u64) << cb);
+        s.kinds = vec![GKind::Unalloc; 130 * l2e];
+        s.kinds[0] = GKind::Data;
+        s.kinds[1] = GKind::Data;
+        s.short_l1 = true;
+        // header 0, reftable 1, refblock 2, L1 3: leave 4 and 5 free
+        s.skip_host = vec![4, 5];
+        out.push((format!("built-short-l1-c{}-r{}", cb, order), spec::build_image(&s).bytes));
+    }
     // flushed states of histories run on the real code (holes from discards)
     for g in [crate::images::G10, crate::images::G9, crate::images::G12] {
         let img = crate::images::lib_formatted(g.cluster_bits, g.order, g.vsize());
